@@ -82,6 +82,7 @@ type muxObs struct {
 	order       []*mediaObj // in first-listed order
 	problems    []problem
 	refetchAll  bool
+	checkDelta  bool
 	changeCtr   int
 	fetches     int
 	query       string // query string appended to playlist requests ("" or "k=v")
@@ -204,6 +205,19 @@ func (o *muxObs) observeStream(s *streamObs) {
 	}
 	snap := &plSnap{afterCall: w.progress(), step: w.r.Stats.Steps, raw: resp.body, pl: pl}
 	s.history = append(s.history, snap)
+	if o.checkDelta && pl.HasCanSkip {
+		// the delta update of the same rest point must satisfy the same single-playlist rules
+		d := w.get(s.uri + "?_HLS_skip=YES")
+		if d.isDone() && d.effStatus() == 200 {
+			if dp, err := parseMediaPlaylist(d.body); err != nil {
+				o.problem("grammar", "delta", "delta update of %s is not grammatical: %v\n%s", s.uri, err, d.body)
+			} else if err := singlePlaylistInvariants(dp, w.cfg); err != nil {
+				o.problem("delta", "single-playlist-invariant", "delta update of %s after call %d: %v\n%s", s.uri, w.progress(), err, d.body)
+			} else {
+				w.r.Probe("delta-invariants-checked")
+			}
+		}
+	}
 
 	// URIs listed now
 	now := map[string]bool{}
